@@ -134,6 +134,24 @@ LAYOUT_SENSITIVE = [
 ]
 
 
+# insertion anchors: the place where add_missing_imports / move_imports_to_toplevel / static-method extraction insert a line is computed from
+# line numbers of the first statement, so the first statement comes in every multi-line / decorated shape, after every kind of module header
+_HEADERS = ["", '"""Doc."""\n', "# comment\n", '"""Doc."""\n\nfrom __future__ import annotations\n', "#!/usr/bin/env python\n# -*- coding: utf-8 -*-\n"]
+_DECOS = ["@functools.lru_cache(maxsize=None)\n", "@functools.lru_cache(\n    maxsize=None,\n)\n", "@functools.wraps(print)\n@functools.lru_cache(\n    maxsize=2\n)\n",
+          "@functools.lru_cache(maxsize=None)\n# a comment between decorator and definition\n", "@functools.lru_cache(maxsize=None)\n\n", "@(\n    functools.lru_cache\n)\n",
+          "@functools.lru_cache(maxsize=None)  # trailing comment\n@functools.wraps(\n    print\n)\n"]
+_FIRSTS = ["def first(x):\n    import json\n    return json.dumps(x), os.getcwd()\n", "class First:\n    def run(self, x):\n        import json\n        return json.dumps(x), os.getcwd()\n",
+           "async def first(x):\n    import json\n    return json.dumps(x), os.getcwd()\n"]
+for _h in _HEADERS:
+    for _d in _DECOS:
+        for _f in _FIRSTS[:1] if _h else _FIRSTS:
+            LAYOUT_SENSITIVE.append(_h + _d + _f + "\n\nprint(first if 'first' in dir() else First)\n")
+LAYOUT_SENSITIVE += [
+    "x = [\n    1,\n    2,\n]\nprint(os.getcwd(), x)\n", "x = (os.getcwd() +\n     os.sep)\nprint(x)\n", "if os.sep:\n    print(1)\nelse:\n    print(2)\n",
+    "with open(os.devnull) as f, \\\n        open(os.devnull) as g:\n    print(f, g)\n", "print(\n    os.getcwd()\n)\n", "from __future__ import annotations; x = os.sep\nprint(x)\n",
+]
+
+
 def run(tier, seed, kinds=("invalid",), name_prefix="c03"):
     rnd = random.Random(seed)
     srcs = P.corpus()
